@@ -37,9 +37,7 @@ def run_case(case):
     out["gen_hazards"] = p["hazards"]
     out["passes"] = passes
     out["py_head"] = r.get("py_events", [])[:6]
-    big = any(e[0] == "SER" and e[2] is not None and abs(e[2]) > 1e8 for e in r.get("py_events", []))
-    ovf = any("overflow" in b for a, b, c in (r.get("san_reports") or []))
-    out["out_of_range"] = bool(big or ovf)
+    out["out_of_range"] = engine.outside_domain(r)
     return out
 
 
